@@ -73,6 +73,32 @@ fn variants(s: &Sprite, plan: &Plan, enc: &Encoded, t: &mut Tape) -> Vec<(&'stat
             _ => {}
         }
     }
+    // a tilemap cel that stores no tiles at all (width or height 0) still declares its bits per tile
+    for (fi, fr) in s.frames.iter().enumerate() {
+        for (ci, c) in fr.cels.iter().enumerate() {
+            if let CelContent::Tilemap { .. } = &c.content {
+                for (zw, zh) in [(0u16, 1u16), (1, 0), (0, 0)] {
+                    let mut base = s.clone();
+                    if let CelContent::Tilemap { w, h, tiles, .. } = &mut base.frames[fi].cels[ci].content {
+                        *w = zw;
+                        *h = zh;
+                        tiles.clear();
+                    }
+                    // only meaningful if the empty tilemap itself is accepted with 32 bits per tile
+                    if !matches!(loads(&encode(&base, plan).bytes), Ok(true)) {
+                        continue;
+                    }
+                    for bits in [0u16, 8, 16, 64] {
+                        let mut v2 = base.clone();
+                        if let CelContent::Tilemap { bits: b, .. } = &mut v2.frames[fi].cels[ci].content {
+                            *b = bits;
+                        }
+                        v.push(("bits-per-tile", format!("empty {}x{} tilemap in frame {} bits={}", zw, zh, fi, bits), encode(&v2, plan).bytes));
+                    }
+                }
+            }
+        }
+    }
     // tilesets without embedded pixels: re-encode the model with the flag cleared
     for (i, ts) in s.tilesets.iter().enumerate() {
         for flags in [ts.flags & !2, (ts.flags & !2) | 1, 0, 1, 4, 5] {
